@@ -13,6 +13,10 @@ from vlib.tr_wrapper import tr_wrapper, tr_calls
 from vlib.syslevel import build_prod, run_script, per_call, call_line, run_many
 
 
+# the caller's environment: values with line breaks and control bytes must arrive in the new program byte for byte
+ENVIRON = [b"X=from-environ", b"NL=line one\nline two\r\nline three\t.", b"PATH=/bin"]
+
+
 def configs(run, d):
     out = "@D@/out.log"
     sock = "@D@/s.sock"
@@ -21,7 +25,7 @@ def configs(run, d):
         ("absent", None),
         ("default", base),
         ("file", base + b"output = file:" + out.encode() + b"\n"),
-        ("file-fmt", base + b"output = file:" + out.encode() + b"\nmessage_format = \"%{cmdline} %{filename} %{env:X} %{env_all}\"\n"),
+        ("file-fmt", base + b"output = file:" + out.encode() + b"\nmessage_format = \"%{cmdline} %{filename} %{env:X} %{env:NL} %{env_all}\"\n"),
         ("devnull", base + b"output = devnull\n"),
         ("stdout", base + b"output = stdout\n"),
         ("stderr", base + b"output = stderr\n"),
@@ -44,6 +48,7 @@ def shapes(rng, tier):
     many = 5000 if tier == "thorough" else 1200
     sh = [
         (b"/bin/true", [b"true"], [b"A=1", b"B=2"]),
+        (b"/bin/env", [b"env"], [b"NL=own\nenvp\r\nvalue", b"X=y"]),
         (b"/nonexistent", None, None),
         (b"/x", [], []),
         (b"", [b""], [b""]),
@@ -92,7 +97,7 @@ def check(run):
         name, ini = configs(run, d)[ci]
         script = ["sink\tfile\tout\t@D@/out.log", "sink\tpipe\tso\t1", "sink\tpipe\tse\t2",
                   "sink\tdgram\tsock\t@D@/s.sock", "sink\tdevlog\tdevlog\t@D@/devlog.sock",
-                  "ini\t" + hexs(ini) if ini is not None else "ini\t~", "env\t" + hexlist([b"X=from-environ", b"PATH=/bin"])]
+                  "ini\t" + hexs(ini) if ini is not None else "ini\t~", "env\t" + hexlist(ENVIRON)]
         plan = []
         k = 0
         for (path, argv, envp) in shp:
@@ -132,7 +137,7 @@ def check(run):
                     why = "real %s called %d times" % (api, len(reals))
                 else:
                     r = reals[0]
-                    exp_env = hexlist(envp) if api == "execve" else ("~" if envnull else hexlist([b"X=from-environ", b"PATH=/bin"]))
+                    exp_env = hexlist(envp) if api == "execve" else ("~" if envnull else hexlist(ENVIRON))
                     if r[2] != api:
                         why = "called real %s for %s" % (r[2], api)
                     elif r[3] != "1":
